@@ -39,6 +39,8 @@ def expand_structural(n, mf, has_fork, fork_k, has_foreign):
     for rot in range(n):
         m.append({"kind": "rotate", "by": rot})
     m.append({"kind": "reverse"})
+    if n >= 3:
+        m.append({"kind": "dup_uuid_far"})
     m.append({"kind": "merged_alone"})
     for j in range(0, n - 1):
         m.append({"kind": "tail_replaced_by_merged", "j": j})
@@ -323,6 +325,18 @@ class FilesetEngine:
                     os.unlink(os.path.join(d, f))
                 order.append(name)
                 exp = ("accept", fork["dump"])
+        elif k == "dup_uuid_far":
+            # forged set: the newest container claims the patch_uuid of the base (indices and
+            # prev links stay consistent, nothing references the newest uuid)
+            from metador_core.ih5.record import IH5UserBlock
+
+            if n < 3:
+                return None
+            ub0 = IH5UserBlock.load(os.path.join(d, files[0]))
+            ubn = IH5UserBlock.load(os.path.join(d, files[-1]))
+            ubn.patch_uuid = ub0.patch_uuid
+            ubn.save(os.path.join(d, files[-1]))
+            exp = ("reject",)
         elif k in ("merged_alone", "tail_replaced_by_merged"):
             mg = info.get("merged")
             if not mg:
